@@ -1467,11 +1467,9 @@ class ModelBuilder:
 
                         # Store leaves as a list for all scenarios
                         for scIdx in range(obj.project.scenarioCount()):
-                            existing = obj.get("leaves", scIdx) or []
-                            if not isinstance(existing, list):
-                                existing = [existing]
-                            existing.append(leave)
-                            obj[("leaves", scIdx)] = existing
+                            # The list attribute appends on assignment: hand over only
+                            # the new entry (passing the whole list doubled it each time)
+                            obj[("leaves", scIdx)] = [leave]
                 elif key == "limits":
                     # Task or resource limits - create Limits object
                     from scriptplan.core.limits import Limits
@@ -1543,11 +1541,9 @@ class ModelBuilder:
 
                         # Store leaves as a list for all scenarios
                         for scIdx in range(obj.project.scenarioCount()):
-                            existing = obj.get("leaves", scIdx) or []
-                            if not isinstance(existing, list):
-                                existing = [existing]
-                            existing.append(leave)
-                            obj[("leaves", scIdx)] = existing
+                            # The list attribute appends on assignment: hand over only
+                            # the new entry (passing the whole list doubled it each time)
+                            obj[("leaves", scIdx)] = [leave]
                 elif key == "booking":
                     # Resource booking - blocks resource during a time period
                     # booking "name" date +duration (e.g., "Maintenance" 2025-05-12-09:00 +6h)
@@ -1585,11 +1581,9 @@ class ModelBuilder:
 
                         # Store as leaves (blocks resource availability)
                         for scIdx in range(obj.project.scenarioCount()):
-                            existing = obj.get("leaves", scIdx) or []
-                            if not isinstance(existing, list):
-                                existing = [existing]
-                            existing.append(leave)
-                            obj[("leaves", scIdx)] = existing
+                            # The list attribute appends on assignment: hand over only
+                            # the new entry (passing the whole list doubled it each time)
+                            obj[("leaves", scIdx)] = [leave]
                 else:
                     with contextlib.suppress(ValueError, KeyError, AttributeError):
                         obj[key] = value
